@@ -382,6 +382,12 @@ def _histories(ctx, rep):
                             t2.garbage_collect(grace_period_ms=0)
                             after = _lib_state(t2)
                     except Exception as e:      # noqa: BLE001
+                        if op == "collect" and type(e).__name__ == "GarbageCollectionAborted" and "names a missing metadata file" in str(e):
+                            # fail-closed collector (C07): a parseable pointer whose target is missing aborts the collection.
+                            # Nothing is lost and the table stays readable / writable — not a C10 violation.
+                            rep.distribution["hist:collect-aborted-on-dangling-pointer"] += 1
+                            shutil.rmtree(path, ignore_errors=True)
+                            continue
                         sig = _classify(kind, with_orphan, "raises")
                         rep.violate(sig, f"{op} after pointer damage '{kind}' raises {type(e).__name__}: {str(e)[:120]}", case)
                         continue
